@@ -44,7 +44,7 @@ def cases(seed, tier):
         L = float(rng.uniform(0.3, 4.0) * lam_um)
         out.append({"exp": ["space", "time", "space", "time_rc"][k % 4], "gid": k, "r": r, "ra": ra, "g": g, "cm": cm, "L": L,
                     "E": float(rng.uniform(-80, -50)), "I": float(rng.uniform(0.01, 0.2) * (r / 1.0) ** 1.5),
-                    "layout": ["branch", "cell_equal", "cell_unequal"][(k // 4) % 3],
+                    "layout": ["branch", "cell_equal", "cell_unequal", "branch_graded"][(k // 4) % 4],
                     "split": float(rng.choice([rng.uniform(0.3, 0.45), rng.uniform(0.55, 0.7)])), "mode": int(rng.integers(1, 4)), "A": float(rng.uniform(5, 30)),
                     "backend_rot": k})
     return out
@@ -59,6 +59,11 @@ def build_cable(case, n, layout):
     if layout == "branch":
         m = jx.Branch([comp] * n)
         lens = np.full(n, L / n)
+    elif layout == "branch_graded":
+        # one branch whose neighbouring compartments differ in length (1:3:1:3...): the off-diagonal couplings of a row differ
+        m = jx.Branch([comp] * n)
+        lens = np.tile([1.0, 3.0], n // 2 + 1)[:n]
+        lens = lens * L / lens.sum()
     else:
         if layout == "cell_equal":
             n1, n2, L1 = n // 2, n - n // 2, L * (n // 2) / n
@@ -120,6 +125,10 @@ def run_case(case, rec):
             # asymptotic part of the ladder = its two finest refinements (coarser levels of some geometries are still
             # pre-asymptotic: observed orders 1.42, 1.59, 1.81, 1.91 on a correct tree)
             ok = all(1.7 <= q <= 2.3 for q in o[-2:]) and 1.8 <= o[-1] <= 2.2 and errs[-1] <= 2e-3 * defl
+            if case["layout"] == "branch_graded":
+                # no order window on a non-uniform grid (the local truncation error is first order there); the solution must
+                # still converge to the cable's steady state
+                ok = errs[-1] <= 5e-3 * defl and errs[-1] < errs[0]
             rec.check("space_order", ok, layout=case["layout"], backend=backend, errors_mV=errs, orders=o, deflection_mV=defl,
                       L_over_lambda=L / lam, geometry={k2: case[k2] for k2 in ("r", "ra", "g", "cm", "L", "split")})
             rec.sig(f"space|{case['layout']}|{backend}|{case['gid']}")
@@ -195,7 +204,7 @@ def run_case(case, rec):
             try:
                 for k in range(5):
                     N = 8 * 2**k
-                    m, x, lens = build_cable(case, n, "branch" if case["layout"] == "cell_unequal" else case["layout"])
+                    m, x, lens = build_cable(case, n, "branch" if case["layout"] in ("cell_unequal", "branch_graded") else case["layout"])
                     m.set("v", E + case["A"] * shape)
                     m.stimulate(jnp.zeros(N), verbose=False)
                     v = np.asarray(rec.call("time_order", jx.integrate, m, delta_t=T / N, solver=scheme, voltage_solver=backend,
